@@ -1,0 +1,464 @@
+//! Verification seams. Compiled only with `--cfg wgsl_to_wgpu_verif`.
+//!
+//! Nothing in here decides anything: a simulator installs a [Backend] for the
+//! current thread and receives every scheduling point and every use of the
+//! formatter process. Without an installed backend all calls fall through to
+//! `std::process` unchanged.
+
+use std::cell::RefCell;
+use std::sync::Arc;
+
+/// Receiver for the events of one simulated thread.
+pub trait Backend {
+    /// Called at every `verif_point!` site.
+    /// May block (scheduling point), count (virtual clock) or panic (injected crash).
+    fn point(&self, site: &'static str);
+
+    /// Called for every process spawned through [process::Command].
+    /// Return `None` to spawn the real process.
+    fn spawn(
+        &self,
+        spec: &process::SpawnSpec,
+    ) -> Option<std::io::Result<Arc<dyn process::ChildIo>>>;
+}
+
+thread_local! {
+    static BACKEND: RefCell<Option<Arc<dyn Backend>>> = const { RefCell::new(None) };
+}
+
+/// Install (or remove) the backend of the calling thread and return the previous one.
+pub fn install(backend: Option<Arc<dyn Backend>>) -> Option<Arc<dyn Backend>> {
+    BACKEND.with(|b| std::mem::replace(&mut *b.borrow_mut(), backend))
+}
+
+fn current() -> Option<Arc<dyn Backend>> {
+    BACKEND.try_with(|b| b.borrow().clone()).ok().flatten()
+}
+
+#[inline]
+pub fn point(site: &'static str) {
+    if let Some(backend) = current() {
+        backend.point(site);
+    }
+}
+
+/// The subset of `std::process` a formatter invocation can reasonably use.
+/// `Output` and `ExitStatus` are the real std types.
+pub mod process {
+    use std::ffi::{OsStr, OsString};
+    use std::io::{self, Read, Write};
+    use std::path::{Path, PathBuf};
+    use std::sync::Arc;
+
+    pub use std::process::{ExitStatus, Output};
+
+    #[derive(Debug, Clone, Copy, PartialEq, Eq)]
+    pub enum StdioKind {
+        Inherit,
+        Null,
+        Piped,
+    }
+
+    #[derive(Debug, Clone, Copy, PartialEq, Eq)]
+    pub enum Fd {
+        Stdin,
+        Stdout,
+        Stderr,
+    }
+
+    /// Everything a [Command] was configured with at the time of spawning.
+    #[derive(Debug, Clone)]
+    pub struct SpawnSpec {
+        pub program: OsString,
+        pub args: Vec<OsString>,
+        pub envs: Vec<(OsString, Option<OsString>)>,
+        pub env_clear: bool,
+        pub cwd: Option<PathBuf>,
+        pub stdin: StdioKind,
+        pub stdout: StdioKind,
+        pub stderr: StdioKind,
+    }
+
+    /// A simulated child process as seen from the parent.
+    pub trait ChildIo: Send + Sync {
+        fn write(&self, fd: Fd, buf: &[u8]) -> io::Result<usize>;
+        fn flush(&self, fd: Fd) -> io::Result<()>;
+        fn read(&self, fd: Fd, buf: &mut [u8]) -> io::Result<usize>;
+        /// The parent closed its end of `fd`.
+        fn close(&self, fd: Fd);
+        fn wait(&self) -> io::Result<ExitStatus>;
+        fn try_wait(&self) -> io::Result<Option<ExitStatus>>;
+        fn kill(&self) -> io::Result<()>;
+        fn id(&self) -> u32;
+        /// The `Child` handle was dropped (with or without having been waited for).
+        fn handle_dropped(&self);
+    }
+
+    pub struct Stdio(StdioKind);
+
+    impl Stdio {
+        pub fn piped() -> Self {
+            Stdio(StdioKind::Piped)
+        }
+        pub fn null() -> Self {
+            Stdio(StdioKind::Null)
+        }
+        pub fn inherit() -> Self {
+            Stdio(StdioKind::Inherit)
+        }
+    }
+
+    impl StdioKind {
+        fn to_std(self) -> std::process::Stdio {
+            match self {
+                StdioKind::Inherit => std::process::Stdio::inherit(),
+                StdioKind::Null => std::process::Stdio::null(),
+                StdioKind::Piped => std::process::Stdio::piped(),
+            }
+        }
+    }
+
+    pub struct Command {
+        spec: SpawnSpec,
+        stdin: Option<StdioKind>,
+        stdout: Option<StdioKind>,
+        stderr: Option<StdioKind>,
+    }
+
+    impl Command {
+        pub fn new<S: AsRef<OsStr>>(program: S) -> Self {
+            Command {
+                spec: SpawnSpec {
+                    program: program.as_ref().to_owned(),
+                    args: Vec::new(),
+                    envs: Vec::new(),
+                    env_clear: false,
+                    cwd: None,
+                    stdin: StdioKind::Inherit,
+                    stdout: StdioKind::Inherit,
+                    stderr: StdioKind::Inherit,
+                },
+                stdin: None,
+                stdout: None,
+                stderr: None,
+            }
+        }
+
+        pub fn arg<S: AsRef<OsStr>>(&mut self, arg: S) -> &mut Self {
+            self.spec.args.push(arg.as_ref().to_owned());
+            self
+        }
+
+        pub fn args<I, S>(&mut self, args: I) -> &mut Self
+        where
+            I: IntoIterator<Item = S>,
+            S: AsRef<OsStr>,
+        {
+            for arg in args {
+                self.arg(arg);
+            }
+            self
+        }
+
+        pub fn env<K: AsRef<OsStr>, V: AsRef<OsStr>>(&mut self, key: K, val: V) -> &mut Self {
+            self.spec
+                .envs
+                .push((key.as_ref().to_owned(), Some(val.as_ref().to_owned())));
+            self
+        }
+
+        pub fn envs<I, K, V>(&mut self, vars: I) -> &mut Self
+        where
+            I: IntoIterator<Item = (K, V)>,
+            K: AsRef<OsStr>,
+            V: AsRef<OsStr>,
+        {
+            for (k, v) in vars {
+                self.env(k, v);
+            }
+            self
+        }
+
+        pub fn env_remove<K: AsRef<OsStr>>(&mut self, key: K) -> &mut Self {
+            self.spec.envs.push((key.as_ref().to_owned(), None));
+            self
+        }
+
+        pub fn env_clear(&mut self) -> &mut Self {
+            self.spec.envs.clear();
+            self.spec.env_clear = true;
+            self
+        }
+
+        pub fn current_dir<P: AsRef<Path>>(&mut self, dir: P) -> &mut Self {
+            self.spec.cwd = Some(dir.as_ref().to_owned());
+            self
+        }
+
+        pub fn stdin<T: Into<Stdio>>(&mut self, cfg: T) -> &mut Self {
+            self.stdin = Some(cfg.into().0);
+            self
+        }
+
+        pub fn stdout<T: Into<Stdio>>(&mut self, cfg: T) -> &mut Self {
+            self.stdout = Some(cfg.into().0);
+            self
+        }
+
+        pub fn stderr<T: Into<Stdio>>(&mut self, cfg: T) -> &mut Self {
+            self.stderr = Some(cfg.into().0);
+            self
+        }
+
+        pub fn get_program(&self) -> &OsStr {
+            &self.spec.program
+        }
+
+        fn resolved(&self, default: StdioKind) -> SpawnSpec {
+            let mut spec = self.spec.clone();
+            spec.stdin = self.stdin.unwrap_or(default);
+            spec.stdout = self.stdout.unwrap_or(default);
+            spec.stderr = self.stderr.unwrap_or(default);
+            spec
+        }
+
+        fn spawn_spec(&mut self, spec: SpawnSpec) -> io::Result<Child> {
+            if let Some(backend) = super::current() {
+                if let Some(result) = backend.spawn(&spec) {
+                    let io = result?;
+                    let piped = |kind: StdioKind| kind == StdioKind::Piped;
+                    return Ok(Child {
+                        stdin: piped(spec.stdin).then(|| ChildStdin(StdinInner::Sim(io.clone()))),
+                        stdout: piped(spec.stdout)
+                            .then(|| ChildStdout(OutInner::Sim(io.clone(), Fd::Stdout))),
+                        stderr: piped(spec.stderr)
+                            .then(|| ChildStderr(OutInner::Sim(io.clone(), Fd::Stderr))),
+                        inner: ChildInner::Sim(io),
+                    });
+                }
+            }
+
+            let mut command = std::process::Command::new(&spec.program);
+            command.args(&spec.args);
+            if spec.env_clear {
+                command.env_clear();
+            }
+            for (k, v) in &spec.envs {
+                match v {
+                    Some(v) => command.env(k, v),
+                    None => command.env_remove(k),
+                };
+            }
+            if let Some(cwd) = &spec.cwd {
+                command.current_dir(cwd);
+            }
+            command
+                .stdin(spec.stdin.to_std())
+                .stdout(spec.stdout.to_std())
+                .stderr(spec.stderr.to_std());
+            let mut child = command.spawn()?;
+            Ok(Child {
+                stdin: child.stdin.take().map(|s| ChildStdin(StdinInner::Real(s))),
+                stdout: child.stdout.take().map(|s| ChildStdout(OutInner::RealOut(s))),
+                stderr: child.stderr.take().map(|s| ChildStderr(OutInner::RealErr(s))),
+                inner: ChildInner::Real(child),
+            })
+        }
+
+        pub fn spawn(&mut self) -> io::Result<Child> {
+            let spec = self.resolved(StdioKind::Inherit);
+            self.spawn_spec(spec)
+        }
+
+        pub fn output(&mut self) -> io::Result<Output> {
+            let mut spec = self.resolved(StdioKind::Piped);
+            if self.stdin.is_none() {
+                spec.stdin = StdioKind::Null;
+            }
+            self.spawn_spec(spec)?.wait_with_output()
+        }
+
+        pub fn status(&mut self) -> io::Result<ExitStatus> {
+            let spec = self.resolved(StdioKind::Inherit);
+            self.spawn_spec(spec)?.wait()
+        }
+    }
+
+    impl From<StdioKind> for Stdio {
+        fn from(kind: StdioKind) -> Self {
+            Stdio(kind)
+        }
+    }
+
+    enum ChildInner {
+        Real(std::process::Child),
+        Sim(Arc<dyn ChildIo>),
+    }
+
+    enum StdinInner {
+        Real(std::process::ChildStdin),
+        Sim(Arc<dyn ChildIo>),
+    }
+
+    enum OutInner {
+        RealOut(std::process::ChildStdout),
+        RealErr(std::process::ChildStderr),
+        Sim(Arc<dyn ChildIo>, Fd),
+    }
+
+    pub struct ChildStdin(StdinInner);
+    pub struct ChildStdout(OutInner);
+    pub struct ChildStderr(OutInner);
+
+    impl Write for ChildStdin {
+        fn write(&mut self, buf: &[u8]) -> io::Result<usize> {
+            match &mut self.0 {
+                StdinInner::Real(s) => s.write(buf),
+                StdinInner::Sim(io) => io.write(Fd::Stdin, buf),
+            }
+        }
+
+        fn flush(&mut self) -> io::Result<()> {
+            match &mut self.0 {
+                StdinInner::Real(s) => s.flush(),
+                StdinInner::Sim(io) => io.flush(Fd::Stdin),
+            }
+        }
+    }
+
+    impl Drop for ChildStdin {
+        fn drop(&mut self) {
+            if let StdinInner::Sim(io) = &self.0 {
+                io.close(Fd::Stdin);
+            }
+        }
+    }
+
+    impl OutInner {
+        fn read(&mut self, buf: &mut [u8]) -> io::Result<usize> {
+            match self {
+                OutInner::RealOut(s) => s.read(buf),
+                OutInner::RealErr(s) => s.read(buf),
+                OutInner::Sim(io, fd) => io.read(*fd, buf),
+            }
+        }
+
+        fn close(&mut self) {
+            if let OutInner::Sim(io, fd) = self {
+                io.close(*fd);
+            }
+        }
+    }
+
+    impl Read for ChildStdout {
+        fn read(&mut self, buf: &mut [u8]) -> io::Result<usize> {
+            self.0.read(buf)
+        }
+    }
+
+    impl Drop for ChildStdout {
+        fn drop(&mut self) {
+            self.0.close();
+        }
+    }
+
+    impl Read for ChildStderr {
+        fn read(&mut self, buf: &mut [u8]) -> io::Result<usize> {
+            self.0.read(buf)
+        }
+    }
+
+    impl Drop for ChildStderr {
+        fn drop(&mut self) {
+            self.0.close();
+        }
+    }
+
+    pub struct Child {
+        pub stdin: Option<ChildStdin>,
+        pub stdout: Option<ChildStdout>,
+        pub stderr: Option<ChildStderr>,
+        inner: ChildInner,
+    }
+
+    impl Child {
+        pub fn id(&self) -> u32 {
+            match &self.inner {
+                ChildInner::Real(c) => c.id(),
+                ChildInner::Sim(io) => io.id(),
+            }
+        }
+
+        pub fn kill(&mut self) -> io::Result<()> {
+            match &mut self.inner {
+                ChildInner::Real(c) => c.kill(),
+                ChildInner::Sim(io) => io.kill(),
+            }
+        }
+
+        /// Like `std::process::Child::wait`: stdin is closed before waiting.
+        pub fn wait(&mut self) -> io::Result<ExitStatus> {
+            drop(self.stdin.take());
+            match &mut self.inner {
+                ChildInner::Real(c) => c.wait(),
+                ChildInner::Sim(io) => io.wait(),
+            }
+        }
+
+        pub fn try_wait(&mut self) -> io::Result<Option<ExitStatus>> {
+            match &mut self.inner {
+                ChildInner::Real(c) => c.try_wait(),
+                ChildInner::Sim(io) => io.try_wait(),
+            }
+        }
+
+        /// Like `std::process::Child::wait_with_output`:
+        /// close stdin, drain stdout and stderr, then wait.
+        pub fn wait_with_output(mut self) -> io::Result<Output> {
+            drop(self.stdin.take());
+
+            let (mut stdout, mut stderr) = (Vec::new(), Vec::new());
+            match (self.stdout.take(), self.stderr.take()) {
+                (None, None) => {}
+                (Some(mut out), None) => {
+                    out.read_to_end(&mut stdout)?;
+                }
+                (None, Some(mut err)) => {
+                    err.read_to_end(&mut stderr)?;
+                }
+                (Some(mut out), Some(mut err)) => {
+                    if matches!(out.0, OutInner::Sim(..)) {
+                        // The simulated child never blocks on stderr.
+                        out.read_to_end(&mut stdout)?;
+                        err.read_to_end(&mut stderr)?;
+                    } else {
+                        let reader = std::thread::spawn(move || {
+                            let mut bytes = Vec::new();
+                            err.read_to_end(&mut bytes).map(|_| bytes)
+                        });
+                        let result = out.read_to_end(&mut stdout);
+                        stderr = reader
+                            .join()
+                            .unwrap_or_else(|_| Err(io::ErrorKind::Other.into()))?;
+                        result?;
+                    }
+                }
+            }
+
+            let status = self.wait()?;
+            Ok(Output {
+                status,
+                stdout,
+                stderr,
+            })
+        }
+    }
+
+    impl Drop for Child {
+        fn drop(&mut self) {
+            if let ChildInner::Sim(io) = &self.inner {
+                io.handle_dropped();
+            }
+        }
+    }
+}
